@@ -78,7 +78,7 @@ def specIter (t : Ty) (v : Val) : String :=
 
 def isHistOp (n : String) : Bool :=
   ["begin", "mk", "get", "val", "copy", "set", "setv", "app", "pop", "chg", "obs", "len", "rd",
-   "snap", "chk", "memo", "hcount", "sum", "iter", "rset", "rtxt", "blen", "appd", "setd"].contains n
+   "snap", "chk", "memo", "hcount", "sum", "iter", "rset", "rtxt", "blen", "appd", "setd", "appv"].contains n
 
 /-- PROP verdict of an operation of the two machines: the implementation's observation must be
     what the plain value machine says.  On a summarised backing (C12) an error is acceptable
@@ -159,6 +159,8 @@ def step (s : HState) (name : String) (args impl : List String) : Except String 
   | "obs", h1 :: _ => withId h1 fun id => pure (both s (.obs id) impl)
   | "len", h1 :: _ => withId h1 fun id => pure (both s (.len id) impl)
   | "rd", h1 :: i :: _ => do let i ← natTok i; withId h1 fun id => pure (both s (.rd id i) impl)
+  | "appv", h1 :: h2 :: _ =>
+    withId h1 fun id => withId h2 fun sid => pure (both s (.appv id sid) impl none (some id))
   | "blen", h1 :: _ => withId h1 fun id => pure (both s (.blen id) impl)
   | "appd", h1 :: _ => withId h1 fun id => pure (both s (.appd id) impl none (some id))
   | "setd", h1 :: i :: _ => do let i ← natTok i; withId h1 fun id => pure (both s (.setd id i) impl none (some id))
